@@ -535,6 +535,15 @@ func (k *Kernel) Tape() []uint32 {
 	return k.tape
 }
 
+// Poke tells a kernel that is letting time pass to look at the world again now
+// (used by timers that make a parked operation ready, e.g. an I/O deadline).
+func (k *Kernel) Poke() {
+	select {
+	case k.timerWake <- struct{}{}:
+	default:
+	}
+}
+
 // After schedules fn in kernel context d from now.
 func (k *Kernel) After(d time.Duration, name string, fn func()) {
 	k.evSeq++
